@@ -1,7 +1,8 @@
 ; specification functions for the library calls on strings that the code uses.
-; NOTE: no quantifier is nested inside another one in these axioms: z3 5.1.0 answers `unsat` on
-; satisfiable inputs when a define-fun with a patterned quantifier (str_wf) is expanded under a
-; patterned quantifier (found while building; reproduced in /verif/notes/z3_5_1_nested_quantifier_bug.smt2).
+; NOTE: the Str datatype also contains values with a negative length; every axiom quantified over Str
+; must hold for those too (or be guarded by slen >= 0), otherwise the theory is inconsistent -- an
+; early version claimed 0 <= slen(str_trim s) <= slen s unguarded, and z3 5.1.0 rightly derived false.
+; The prelude consistency check run by every check (engine#prelude-consistent) guards against this.
 ; decimal rendering of an integer: abstract, with the facts the proofs need
 (declare-fun itoa (Int) Str)
 (assert (forall ((n Int)) (! (and (>= (slen (itoa n)) 1) (<= (slen (itoa n)) 20)) :pattern ((itoa n)))))
@@ -14,7 +15,7 @@
 (assert (forall ((s Str)) (! (= (slen (str_lower s)) (slen s)) :pattern ((str_lower s)))))
 (assert (forall ((s Str) (i Int)) (! (and (<= 0 (select (sarr (str_lower s)) i)) (<= (select (sarr (str_lower s)) i) 255) (=> (or (< i 0) (>= i (slen (str_lower s)))) (= (select (sarr (str_lower s)) i) 0))) :pattern ((select (sarr (str_lower s)) i)))))
 (declare-fun str_trim (Str) Str)
-(assert (forall ((s Str)) (! (and (>= (slen (str_trim s)) 0) (<= (slen (str_trim s)) (slen s))) :pattern ((str_trim s)))))
+(assert (forall ((s Str)) (! (=> (>= (slen s) 0) (and (>= (slen (str_trim s)) 0) (<= (slen (str_trim s)) (slen s)))) :pattern ((str_trim s)))))
 (assert (forall ((s Str) (i Int)) (! (and (<= 0 (select (sarr (str_trim s)) i)) (<= (select (sarr (str_trim s)) i) 255) (=> (or (< i 0) (>= i (slen (str_trim s)))) (= (select (sarr (str_trim s)) i) 0))) :pattern ((select (sarr (str_trim s)) i)))))
 ; prefix / suffix tests
 (define-fun has_prefix ((s Str) (p Str)) Bool
